@@ -1017,13 +1017,24 @@ class VerifyingAdapterLookup(AdapterLookupBase, VerifyingBase):
         # if the order changed: a registry re-based (in another thread)
         # while we compute is then noticed by the next lookup instead of
         # leaving us with an order that mixes old and new bases.
+        #
+        # Our own registry may be re-based meanwhile, too; its ``changed``
+        # and ours can then record their findings in either order.  ``ro``
+        # is a new list whenever it is assigned, so seeing the same list
+        # before and after means that what we recorded is current.
         registry = self._registry
-        while True:
+        for _attempt in range(8):  # others would have to win every time
+            seen = registry.ro
+            bases = registry.__bases__
             super().changed(originally_changed)
             new_ro = ro.ro(registry)
-            if new_ro == registry.ro:
+            if new_ro != registry.ro:
+                # (If we are being re-based right now, what we computed
+                # may be out of date already: leave it to ``_setBases``.)
+                if registry.__bases__ is bases:
+                    registry.ro = new_ro
+            elif registry.ro is seen:
                 break
-            registry.ro = new_ro
 
 
 @implementer(IAdapterRegistry)
